@@ -113,6 +113,24 @@ func mutateRune(r *rand.Rand, s string) string {
 	return string(rs)
 }
 
+// flipCase flips the case of one ASCII letter (chosen from the end backwards
+// with a random start, so that refs after '#' are hit often).
+func flipCase(s string, r *rand.Rand) string {
+	b := []byte(s)
+	var idx []int
+	for i, c := range b {
+		if c >= 'a' && c <= 'z' || c >= 'A' && c <= 'Z' {
+			idx = append(idx, i)
+		}
+	}
+	if len(idx) == 0 {
+		return s
+	}
+	i := idx[len(idx)-1-r.IntN((len(idx)+1)/2)]
+	b[i] ^= 0x20
+	return string(b)
+}
+
 // configLeaves collects mutable positions inside a plugin config.
 type leafRef struct {
 	set func(v any)
@@ -192,6 +210,11 @@ func c01Mutants(r *rand.Rand, sc *signCase, sig *pipeline.Signature, kp, other, 
 		m.Step.Command = ""
 		add(m)
 	}
+	if flipped := flipCase(sc.Step.Command, r); flipped != sc.Step.Command {
+		m = base("command:letter-case")
+		m.Step.Command = flipped
+		add(m)
+	}
 	m = base("command:append-newline")
 	m.Step.Command += "\n"
 	add(m)
@@ -239,6 +262,11 @@ func c01Mutants(r *rand.Rand, sc *signCase, sig *pipeline.Signature, kp, other, 
 			m.Step.Plugins[i].Source += "#other-ref"
 		}
 		add(m)
+		if flipped := flipCase(sc.Step.Plugins[i].Source, r); flipped != sc.Step.Plugins[i].Source {
+			m = base("plugins:source-letter-case")
+			m.Step.Plugins[i].Source = flipped
+			add(m)
+		}
 		m = base("plugins:null-vs-value")
 		if m.Step.Plugins[i].Config == nil {
 			m.Step.Plugins[i].Config = map[string]any{"injected": true}
